@@ -372,3 +372,12 @@ V_COERCE = VUnit("coerce", "coerce", ["eval::eval_expr_to_bool", "eval::eval_exp
 ALL_V.append(V_COERCE)
 PROPS["C17"]._v = PROPS["C17"]._v + [V_COERCE]
 PROPS["C11"]._v = PROPS["C11"]._v + [V_COERCE]
+
+
+V_BINOP = VUnit("binop", "binop", ["eval::apply_binary_operation (15 operators x all operand kinds)", "eval::ref_eq"])
+ALL_V.append(V_BINOP)
+PROPS["C06"]._v = PROPS["C06"]._v + [V_BINOP]
+PROPS["C11"]._v = PROPS["C11"]._v + [V_BINOP]
+PROPS["C10"]._v = [V_BINOP]
+PROPS["C17"]._v = PROPS["C17"]._v + [V_BINOP]
+PROPS["C02"]._v = ALL_V
